@@ -2,9 +2,11 @@
 # run_seeded.py [names...]: apply every kept seeded change to /repo in turn, run the quick checks named in its
 # meta.json (first the property's own check), undo it, and regenerate /verif/seeded/README.md.
 import json, os, subprocess, sys, time, re
-root = '/verif/seeded'
+VERIF = os.environ.get('VERIF_DIR', '/verif')
+REPO = os.environ.get('VERIF_REPO', '/repo')
+root = VERIF + '/seeded'
 names = sys.argv[1:] or sorted(d for d in os.listdir(root) if os.path.isdir(f'{root}/{d}'))
-assert subprocess.run(['git', '-C', '/repo', 'status', '--short'], capture_output=True, text=True).stdout.strip() == '', '/repo not clean'
+assert subprocess.run(['git', '-C', REPO, 'status', '--short'], capture_output=True, text=True).stdout.strip() == '', '/repo not clean'
 rows = []
 for n in names:
     meta = json.load(open(f'{root}/{n}/meta.json'))
@@ -14,26 +16,29 @@ for n in names:
         if cid not in checks: checks.append(cid)
     own = meta['breaks_property']
     if own not in checks: checks.insert(0, own)
-    ap = subprocess.run(['git', '-C', '/repo', 'apply', f'{root}/{n}/patch.diff'], capture_output=True, text=True)
+    ap = subprocess.run(['git', '-C', REPO, 'apply', f'{root}/{n}/patch.diff'], capture_output=True, text=True)
     if ap.returncode != 0:
         # the tree moved on (a later fix: commit): retry with fuzz and, when that works, refresh the stored patch
-        ap = subprocess.run(['patch', '-p1', '-d', '/repo', '--fuzz=3', '--no-backup-if-mismatch', '-i', f'{root}/{n}/patch.diff'], capture_output=True, text=True)
+        ap = subprocess.run(['patch', '-p1', '-d', REPO, '--fuzz=3', '--no-backup-if-mismatch', '-i', f'{root}/{n}/patch.diff'], capture_output=True, text=True)
         if ap.returncode == 0:
-            d = subprocess.run(['git', '-C', '/repo', 'diff'], capture_output=True, text=True).stdout
+            d = subprocess.run(['git', '-C', REPO, 'diff'], capture_output=True, text=True).stdout
             open(f'{root}/{n}/patch.diff', 'w').write(d)
     res = []
     if ap.returncode != 0:
         res.append(('-', 'patch no longer applies', 0))
     else:
         for cid in checks:
+            # the neighbours only when the property's own check did not report it
+            if res and res[0][1].startswith('VIOLATION') and not os.environ.get('ALL_CHECKS'):
+                break
             t0 = time.time()
-            p = subprocess.run(['./check', cid, 'quick'], cwd='/verif', capture_output=True, text=True, env=dict(os.environ, VERIF_SECS=os.environ.get('VERIF_SECS', '25')))
+            p = subprocess.run(['./check', cid, 'quick'], cwd=VERIF, capture_output=True, text=True, env=dict(os.environ, VERIF_SECS=os.environ.get('VERIF_SECS', '25')))
             dt = time.time() - t0
             m = re.search(r'clause=(\S+)', p.stdout)
             verdict = {0: 'not reported', 1: 'VIOLATION ' + (m.group(1) if m else '?'), 2: 'INFRA'}.get(p.returncode, str(p.returncode))
             res.append((cid, verdict, dt))
-    subprocess.run(['git', '-C', '/repo', 'reset', '-q', '--hard', 'HEAD'])
-    subprocess.run(['git', '-C', '/repo', 'clean', '-fdq'], capture_output=True)
+    subprocess.run(['git', '-C', REPO, 'reset', '-q', '--hard', 'HEAD'])
+    subprocess.run(['git', '-C', REPO, 'clean', '-fdq'], capture_output=True)
     meta['last_run'] = [{'check': c + ' quick', 'result': v, 'seconds': round(dt, 1)} for c, v, dt in res]
     json.dump(meta, open(f'{root}/{n}/meta.json', 'w'), indent=1)
     rows.append((n, meta, res))
